@@ -232,3 +232,23 @@ Definition parse_key (key : String.string) : String.string * String.string * Str
   let parts := split_on colon key in
   (nth 0 parts String.EmptyString, nth 1 parts String.EmptyString, nth 2 parts String.EmptyString).
 
+
+(* name.split(':', n) : at most n splits *)
+Fixpoint split_on_max (c : Ascii.ascii) (n : nat) (s : String.string) : list String.string :=
+  match n with
+  | 0 => [s]
+  | S n' =>
+      match s with
+      | String.EmptyString => [String.EmptyString]
+      | String.String a s' =>
+          if Ascii.eqb a c then String.EmptyString :: split_on_max c n' s'
+          else match split_on_max c n s' with
+               | [] => [String.String a String.EmptyString]
+               | h :: t => String.String a h :: t
+               end
+      end
+  end.
+Definition parse_key2 (key : String.string) : String.string * String.string * String.string :=
+  let parts := split_on_max colon 2 key in
+  (nth 0 parts String.EmptyString, nth 1 parts String.EmptyString, nth 2 parts String.EmptyString).
+
